@@ -58,7 +58,12 @@ def shards(tier, seed):
     return out
 
 
-def gen_case(rng, kind, pt_sub, sh_sub, G, n_shapes=8):
+def gen_case(rng, kind, pt_sub, sh_sub, G, n_shapes=8, flavor=None):
+    """flavor 'negzero': a shape vertex is moved to the origin and every zero coordinate of the points,
+    of the shapes or of both is stored as -0.0 (equal in value to 0.0).
+    flavor 'f32res' (float32 shapes, wider point subtype, point-like shapes): shape vertices are even
+    integers just above 2**24 - exactly representable in float32 - and the points run over all
+    integers there: the odd ones differ from every vertex by less than the float32 resolution."""
     shapes, cells = [], []
     for _ in range(n_shapes):
         if kind == "polygon" and rng.random() < 0.6:
@@ -81,10 +86,18 @@ def gen_case(rng, kind, pt_sub, sh_sub, G, n_shapes=8):
     s, tx, ty = A.fit_transform(rng, kind, shapes, tight, hi - lo)
     tx -= lo * s
     ty -= lo * s
+    if flavor == "f32res":
+        s, tx, ty = 2, 2 ** 24 - 2 * lo + 2, 2 ** 24 - 2 * lo + 4
+    elif flavor and flavor.startswith("negzero") and allc:
+        k_ = 2 * int(rng.integers(len(allc) // 2))
+        tx, ty = -allc[k_] * s, -allc[k_ + 1] * s
     shapes_t = [gg.transform(e, kind, s, tx, ty) for e in shapes]
     # points: complete half grid (integer grid for integer point subtypes), doubled units
     integer_pts = not pt_sub.startswith("float")
     step = 2 if integer_pts else 1
+    if flavor == "f32res":
+        # plain-unit integers (doubled: even numbers) of the stretched grid, i.e. half steps of the shape grid
+        integer_pts, step = True, 1
     vals = list(range(2 * (lo - 1), 2 * (hi + 1) + 1, step))
     P = np.array([(x, y) for x in vals for y in vals], dtype=np.int64)
     if len(P) > 900:
@@ -92,19 +105,20 @@ def gen_case(rng, kind, pt_sub, sh_sub, G, n_shapes=8):
     Ps = P.copy()
     Ps[:, 0] = P[:, 0] * s + 2 * tx
     Ps[:, 1] = P[:, 1] * s + 2 * ty
-    if integer_pts and s == 1:
-        pass
     # positions of missing points
     miss = sorted(set(int(v) for v in rng.choice(len(Ps), size=min(6, len(Ps)), replace=False)))
     return {"kind": kind, "pt_sub": pt_sub, "sh_sub": sh_sub, "shapes": shapes_t,
-            "cells": cells, "stretch": [s, tx, ty], "points2": Ps.tolist(), "missing": miss}
+            "cells": cells, "stretch": [s, tx, ty], "points2": Ps.tolist(), "missing": miss,
+            "flavor": flavor}
 
 
-def build_points(P2, pt_sub, missing):
+def build_points(P2, pt_sub, missing, negzero=False):
     """PointArray whose null slots keep the original point bytes (hostile null slots)."""
     import pyarrow as pa
     from spatialpandas.geometry import PointArray
     vals = (P2.astype(np.float64) / 2.0).astype(pt_sub)
+    if negzero and vals.dtype.kind == "f":
+        vals[vals == 0] = -0.0
     n = len(vals)
     if not missing:
         return PointArray(vals)
@@ -116,6 +130,22 @@ def build_points(P2, pt_sub, missing):
                                 [pa.py_buffer(bitmap.tobytes()),
                                  pa.py_buffer(np.ascontiguousarray(vals).tobytes())])
     return PointArray(arr, dtype=pt_sub)
+
+
+def _negzero(e):
+    if e is None:
+        return None
+    if isinstance(e, (list, tuple)):
+        return [_negzero(v) for v in e]
+    return -0.0 if e == 0 else e
+
+
+def _floats(e):
+    if e is None:
+        return None
+    if isinstance(e, (list, tuple)):
+        return [_floats(v) for v in e]
+    return float(e)
 
 
 def point_classes(kind, shape2, X, Y, code):
@@ -179,10 +209,18 @@ def check_case(ctx, case):
             return True
         raise e
 
-    ok, PA, tb = ctx.guarded(build_points, P2, pt_sub, missing)
+    flavor = case.get("flavor") or ""
+    ok, PA, tb = ctx.guarded(build_points, P2, pt_sub, missing, flavor in ("negzero-points", "negzero-both"))
     if not ok:
         return rec_raise("build points", PA, tb, "construct")
-    ok, SA, tb = ctx.guarded(gg.make_array, kind, shapes, sh_sub)
+    stored = shapes
+    if flavor in ("negzero-shapes", "negzero-both") and sh_sub.startswith("float"):
+        stored = [_negzero(e) for e in shapes]
+    if flavor == "f32res":
+        stored = [_floats(e) for e in shapes]     # (arrow refuses Python ints above 2**24 for float32)
+    if flavor:
+        ctx.count(f"flavor:{flavor}")
+    ok, SA, tb = ctx.guarded(gg.make_array, kind, stored, sh_sub)
     if not ok:
         return rec_raise("build shapes", SA, tb, "construct")
     gs = GeoSeries(PA, index=np.arange(npts) + 100)
@@ -319,9 +357,18 @@ def run(ctx, spec):
             ctx.require(f"{kind}:{c}", False)
         for pt_sub, sh_sub in p["combos"]:
             for _ in range(p["cases"]):
-                case = gen_case(ctx.rng, kind, pt_sub, sh_sub, p["G"])
+                flavor = None
+                if pt_sub.startswith("float") and sh_sub.startswith("float") and ctx.rng.random() < 0.2:
+                    flavor = ["negzero-points", "negzero-shapes", "negzero-both"][int(ctx.rng.integers(3))]
+                case = gen_case(ctx.rng, kind, pt_sub, sh_sub, p["G"], flavor=flavor)
                 check_case(ctx, case)
                 ctx.count("cases")
+        if kind in ("point", "multipoint"):
+            # equality across coordinate subtypes, below the resolution of the narrower one
+            for pt_sub in ("float64", "int32", "int64"):
+                for _ in range(max(2, p["cases"] // 6)):
+                    check_case(ctx, gen_case(ctx.rng, kind, pt_sub, "float32", p["G"], flavor="f32res"))
+                    ctx.count("cases")
 
 
 def replay(ctx, v):
